@@ -1,7 +1,7 @@
 #!/bin/sh
 # tools/runall.sh [tier] : run every claimed check on /repo, print one line each
 tier=${1:-quick}
-cd /verif
+cd "$(dirname "$0")/.." || exit 2   # the copy of /verif this script belongs to (a vp snapshot runs its own files)
 for id in $(python3 -c "import json;print(' '.join(c['property_id'] for c in json.load(open('MANIFEST.json'))['checks']))"); do
   s=$(date +%s)
   out=$(./check $id --tier $tier 2>&1); rc=$?
